@@ -208,6 +208,32 @@ pub fn run(ctx: &mut Ctx) {
         let obs = render_text(&parser, &src_tmpl(&t), &data);
         ctx.emit(render_case("c02", if oracle_only { "oracle-tpl" } else { "tpl" }, &t, &data, &partials, &obs));
     }
+    // ---- (d) cycle tags whose register keys coincide although the tags differ (the key of an unnamed
+    // cycle is its values joined by `-`, and `-` may occur inside an identifier; a group name may equal
+    // a single cycled variable): a mismatch is an error, never an index out of range ----
+    {
+        let parser = build_parser(&[], Policy::Eager);
+        let mut d = Object::new();
+        for (k, v) in [("a", "A"), ("b", "B"), ("x", "X"), ("a-b", "AB"), ("p", "P")] {
+            d.insert(k.into(), Value::scalar(v));
+        }
+        let texts = [
+            "{% cycle a, b %}|{% cycle a-b %}",
+            "{% cycle a, b %}{% cycle a, b %}|{% cycle a-b %}",
+            "{% cycle a-b %}|{% cycle a, b %}|{% cycle a-b %}",
+            "{% cycle x: 'p', 'q' %}|{% cycle x %}",
+            "{% cycle x: 'p', 'q' %}{% cycle x: 'p', 'q' %}|{% cycle x %}|{% cycle x %}",
+            "{% for i in (1..3) %}{% cycle a, b %}{% cycle a-b %}{% endfor %}",
+            "{% for i in (1..3) %}{% cycle 'g': a, b, x %}{% cycle 'g': a %}{% endfor %}",
+            "{% cycle 'a-b': 1, 2, 3 %}{% cycle 'a-b': 1, 2, 3 %}|{% cycle a, b %}",
+            "{% cycle 1, 2 %}{% cycle 1, 2 %}|{% cycle 1-2 %}",
+        ];
+        for t in texts {
+            let obs = render_text(&parser, t, &d);
+            let ok = !matches!(obs, Obs::Panic(_) | Obs::BadUtf8(_));
+            ctx.emit(format!("law cycle-keys render-never-panics {} {}", if ok { "ok" } else { "fail" }, crate::proto::xs(&format!("{} => {}", t, obs.tokens()))));
+        }
+    }
     // ---- (c) error paths over wide / long data: an error message may quote the offending value or
     // list the available keys; building it must not fail either ----
     {
